@@ -1050,7 +1050,7 @@ def fixed_designs():
     out.append({"sigs": [S("a", 2), S("a", 3), S("a", 4), S("o", 4)], "ios": [],
                 "mods": [M(st=[["comb", [["eq", ["s", 3], ["b", "+", ["s", 0], ["b", "^", ["s", 1], ["s", 2]]]]]]])],
                 "ports": [["s", 0, None, None], ["s", 1, None, None], ["s", 2, None, None], ["s", 3, None, None]]})
-    # S3: a, a$N, a — N chosen by the sweep below
+    # (the former S3 inputs a, a$N, a are added by the sweep in gen_cases)
     # empty top
     out.append({"sigs": [S("a", 1)], "ios": [], "mods": [M()], "ports": [["s", 0, None, None]]})
     # empty submodules at several depths, one non-empty leaf
